@@ -21,6 +21,7 @@ _ENV = {
     "OPENBLAS_NUM_THREADS": "1",
     "MKL_NUM_THREADS": "1",
     "NUMBA_THREADING_LAYER": "omp",
+    "OMP_WAIT_POLICY": "passive",
 }
 
 
